@@ -125,8 +125,10 @@ BOUNDED = {
                 bound={'quick': '~14k scripts', 'thorough': '~600k'}),
     'C13': dict(what='subscription side joined with message side on the REAL code for 17 (connector, kind) pairs: WebSocketSubMapper::map + serde deserialisation of venue '
                      'payloads + StatelessTransformer, three instrument flavours, instrument lists up to length 3 (4) with repetitions, mixed case, digits, colliding prefixes, '
-                     'several expiries / strikes: instrument key, exchange id, price / amount / side / time as stated; unsubscribed markets are unidentifiable',
-                bound={'quick': '~250k message attributions', 'thorough': '~1.9M'}),
+                     'several expiries / strikes: instrument key, exchange id, price / amount / side / time / trade id as stated; unsubscribed markets are unidentifiable; L1 books '
+                     'with both sides, no bids, no asks, empty (an empty side is stated as price 0): None for exactly that side; L1 last_update_time; Binance futures liquidations; '
+                     'Bitfinex trades (message side only: real deserialiser + conversion)',
+                bound={'quick': '~370k message attributions', 'thorough': '~1.9M'}),
     'C03': dict(what='engine scenarios on the REAL Engine (3 exchanges, 6 instruments; execution links healthy / closed / missing incl. a missing link at a lower '
                      'exchange index and tx maps built by the real ExecutionBuilder; scripted strategy; risk manager refusing a chosen cid set): requests reported '
                      'sent are delivered exactly once to the named exchange and marked in flight; failed ones carry a (fatal where due) error, no mark, nothing '
